@@ -533,6 +533,29 @@ func genScens(c *hx.Ctx) []Scen {
 			out = append(out, s)
 		}
 	}
+	// instant-sync bootstrap through RetrieveCheckpoint with mixed peer lists (bootstrap.go): every bogus-checkpoint
+	// kind once, with 1..2 Byzantine and 1..2 honest peers in varying orders
+	for i, f := range cpFields {
+		for rep := 0; rep < c.Scale(1, 6); rep++ {
+			r := c.R.Fork()
+			s := Scen{Seed: r.U64(), Regime: []int{2, 5, 1}[(i+rep)%3], Attack: "bootstrap", Field: f, K: r.Intn(1000),
+				Opts: chaingen.GenOpts{Blocks: 9 + r.Intn(4), Branchiness: 5, TxPerBlock: 1 + r.Intn(2)}}
+			t := s.safeTree()
+			if t == nil {
+				continue
+			}
+			best := -1
+			for _, n := range t.Nodes {
+				if n.ChainValid() && n.Block.V2 != nil && n.Height >= t.Env.Net.HardforkV2.RequireHeight && n.Height >= 3 && (best < 0 || n.Height > t.Nodes[best].Height) {
+					best = n.Idx
+				}
+			}
+			if best >= 0 {
+				s.HTip = best
+				out = append(out, s)
+			}
+		}
+	}
 	// hit-and-run: a bad batch that is judged only after its sender has hung up (see hitrun.go)
 	for i, regime := range []int{1, 4, 1} {
 		if i == 2 && !c.Thorough {
